@@ -38,7 +38,7 @@ ATOMS = ["v", " v ", "\nv", "w x", "k=v", " k = v ", "k=\nv", "n m = v w ", "2=v
          "u=v\u00a0", "\u2009" + "4" + "\u2009=b", "\u3000w\u3000=\u00a0x y\u2009",
          # a nested construct in one argument, line-start markup characters after an inner newline in another
          "[[x]]", "m=[[x|y]]", "p=a\n b", "q=a\n* b", "a\n: b", "r=[http://e.org t]",
-         "2023=x", "1001=y", "v\n", "k=v\n", "first_name=v", "_x=w", "sort_key=a", "sort key=b", " 5 = e", "6\n=f",
+         "2023=x", "1001=y", "v\n", "k=v\n", "a\r\nb", "c=x\r\ny", "first_name=v", "_x=w", "sort_key=a", "sort key=b", " 5 = e", "6\n=f",
          # names written in non-ASCII decimal digits
          "\u0662=b", "\uff13=c"]
 
